@@ -233,7 +233,9 @@ theorem skipF_eqOn {c : Ctx} {rules0 : List Rule} (hA : InlAgree rules0 c) (hany
   · split
     · rename_i inner x' heq
       obtain ⟨strs, rfl⟩ := populate_is_skip _ _ _ _ _ heq
-      exact skip_law' hA hany heq
+      split
+      · exact EqOn.refl _
+      · exact skip_law' hA hany heq
     · exact EqOn.refl _
   · exact EqOn.refl _
 
